@@ -573,209 +573,3 @@ Proof.
     + simpl. apply (allc_weaken is_digit); [exact digit_not_space | exact D].
 Qed.
 
-(* ---------- scalars ---------- *)
-Lemma str2bool_True : str2bool_gen "True" = Some true /\ str2bool_gen "False" = Some false.
-Proof. split; vm_compute; reflexivity. Qed.
-
-Lemma scalar_roundtrip u v s i :
-  is_item u = true -> u <> TFloat -> has_type v u = true -> scalar_token v = Some s ->
-  cv (parsing_fn u) i s = Ok v.
-Proof.
-  intros Hi Hf Ht Hs. destruct u; try discriminate; try congruence; destruct v; try discriminate; simpl in Hs; injection Hs as <-; simpl.
-  - now rewrite py_int_show.
-  - reflexivity.
-  - destruct b; [now rewrite (proj1 str2bool_True) | now rewrite (proj2 str2bool_True)].
-  - reflexivity.
-  - simpl in Ht. now rewrite Ht.
-Qed.
-
-Lemma check_none vs : forallb (check_choice None) vs = true.
-Proof. induction vs; simpl; auto. Qed.
-
-Lemma cva_roundtrip u vs : forall toks i,
-  is_item u = true -> u <> TFloat -> forallb (fun x => has_type x u) vs = true -> scalar_tokens vs = Some toks ->
-  cva (parsing_fn u) i toks = Ok vs.
-Proof.
-  induction vs as [|v r IH]; intros toks i Hi Hf Ht Hs; simpl in Hs.
-  - now injection Hs as <-.
-  - destruct (scalar_token v) as [s|] eqn:E; [|discriminate]. destruct (scalar_tokens r) as [ss|] eqn:E2; [|discriminate].
-    injection Hs as <-. simpl in Ht. apply andb_true_iff in Ht as [H1 H2]. simpl.
-    rewrite (scalar_roundtrip u v s i Hi Hf H1 E), (IH ss (S i) Hi Hf H2 eq_refl). reflexivity.
-Qed.
-
-Lemma cva_seq_roundtrip pre ts : forall vs toks,
-  forallb is_item (pre ++ ts) = true -> forallb (fun u => negb (ty_eqb u TFloat)) ts = true ->
-  zip_typed vs ts = true -> scalar_tokens vs = Some toks ->
-  cva (KSeq (map parsing_fn (pre ++ ts))) (List.length pre) toks = Ok vs.
-Proof.
-  revert pre. induction ts as [|u r IH]; intros pre vs toks Hall Hnf Hz Hs; destruct vs as [|v vr]; try discriminate.
-  - simpl in Hs. now injection Hs as <-.
-  - simpl in Hs, Hz, Hnf. destruct (scalar_token v) as [s|] eqn:E; [|discriminate].
-    destruct (scalar_tokens vr) as [ss|] eqn:E2; [|discriminate]. injection Hs as <-.
-    apply andb_true_iff in Hz as [H1 H2]. apply andb_true_iff in Hnf as [F1 F2].
-    assert (Hu : is_item u = true).
-    { rewrite forallb_app in Hall. apply andb_true_iff in Hall as [_ Hall]. simpl in Hall. now apply andb_true_iff in Hall as [Hu _]. }
-    assert (Huf : u <> TFloat) by (intros ->; discriminate).
-    cbn [convert_all]. rewrite convert_seq, nth_error_map, nth_error_app2, Nat.sub_diag by lia. simpl nth_error. cbn [option_map].
-    rewrite (scalar_roundtrip u v s 0 Hu Huf H1 E).
-    assert (X := IH (pre ++ [u])%list vr ss). rewrite <- app_assoc, app_length in X. simpl in X. rewrite Nat.add_1_r in X.
-    rewrite (X Hall F2 H2 E2). reflexivity.
-Qed.
-
-Fixpoint nofloat (t : ty) : bool :=
-  match t with
-  | TFloat => false
-  | TList u | TTupVar u | TOpt u => nofloat u
-  | TTupFix ts => forallb nofloat ts
-  | _ => true
-  end.
-
-Lemma nofloat_item u : is_item u = true -> nofloat u = true -> u <> TFloat.
-Proof. intros _ H ->. discriminate. Qed.
-
-Lemma nofloat_items ts : forallb is_item ts = true -> forallb nofloat ts = true -> forallb (fun u => negb (ty_eqb u TFloat)) ts = true.
-Proof.
-  induction ts as [|u r IH]; simpl; intros Hi Hn; [reflexivity|].
-  apply andb_true_iff in Hi as [A B]. apply andb_true_iff in Hn as [C D]. rewrite (IH B D), andb_true_r.
-  destruct u; try discriminate; reflexivity.
-Qed.
-
-Lemma zip_typed_all t0 r vs : (forall u, In u r -> u = t0) -> zip_typed vs r = true -> forallb (fun x => has_type x t0) vs = true.
-Proof.
-  revert vs. induction r as [|u r IH]; intros vs Hall H; destruct vs as [|x vs]; try discriminate; [reflexivity|].
-  simpl in *. apply andb_true_iff in H as [H1 H2]. assert (Eu := Hall u (or_introl eq_refl)). subst u. rewrite H1. simpl. apply IH; auto.
-Qed.
-
-Lemma zip_typed_length vs ts : zip_typed vs ts = true -> List.length vs = List.length ts.
-Proof.
-  revert vs. induction ts as [|u r IH]; intros vs H; destruct vs; try discriminate; [reflexivity|].
-  simpl in *. apply andb_true_iff in H as [_ H]. f_equal. now apply IH.
-Qed.
-
-Lemma scalar_tokens_length vs toks : scalar_tokens vs = Some toks -> List.length toks = List.length vs.
-Proof.
-  revert toks. induction vs as [|v r IH]; intros toks H; simpl in H; [now injection H as <-|].
-  destruct (scalar_token v); [|discriminate]. destruct (scalar_tokens r) eqn:E; [|discriminate]. injection H as <-.
-  simpl. f_equal. now apply IH.
-Qed.
-
-(* a container value written item by item comes back as the same container *)
-Lemma container_roundtrip (t : ty) vs toks :
-  is_container t = true -> nofloat t = true ->
-  has_type (match t with TList _ => VList vs | _ => VTup vs end) t = true ->
-  scalar_tokens vs = Some toks ->
-  tkv (container_nargs t) (match t with TList u => container_conv u | _ => parsing_fn t end) None toks = Ok (RMany vs).
-Proof.
-  intros Hc Hn Ht Hs.
-  assert (K : forall n k, (match n with NNum m => List.length toks = m | NStar => True | _ => False end) ->
-              cva k 0 toks = Ok vs -> tkv n k None toks = Ok (RMany vs)).
-  { intros n k Ha C. unfold take_values. rewrite C, check_none.
-    destruct n; try contradiction; [reflexivity|]. subst n. rewrite Nat.eqb_refl. reflexivity. }
-  destruct t as [| | | | | | |u|ts|u|]; try discriminate.
-  - simpl in Hc, Hn, Ht. apply K; [exact I|]. destruct (item_conv_flat u Hc) as [_ ->].
-    exact (cva_roundtrip u vs toks 0 Hc (nofloat_item u Hc Hn) Ht Hs).
-  - simpl in Hc. apply andb_true_iff in Hc as [Hne Hall]. simpl in Hn.
-    rewrite has_type_tupfix in Ht.
-    assert (Hna : container_nargs (TTupFix ts) = NNum (List.length ts)).
-    { simpl. replace (existsb _ ts) with false; [reflexivity|]. symmetry. apply not_true_is_false. intros X.
-      apply existsb_exists in X as [x [Hx Hx2]]. rewrite forallb_forall in Hall. specialize (Hall x Hx). destruct x; discriminate. }
-    rewrite Hna. apply K; [rewrite (scalar_tokens_length _ _ Hs); exact (zip_typed_length _ _ Ht)|].
-    destruct ts as [|t0 r]; [discriminate|]. cbn [parsing_fn].
-    assert (Ht0 : is_item t0 = true) by (simpl in Hall; now apply andb_true_iff in Hall as [X _]).
-    destruct (forallb (ty_eqb t0) r) eqn:Hom.
-    + apply cva_roundtrip; auto.
-      * apply nofloat_item; auto. simpl in Hn. now apply andb_true_iff in Hn as [X _].
-      * apply (zip_typed_all t0 (t0 :: r)); [|exact Ht]. intros u [<-|Hu]; [reflexivity|]. exact (homog_all_eq t0 r Ht0 Hom u Hu).
-    + exact (cva_seq_roundtrip [] (t0 :: r) vs toks Hall (nofloat_items _ Hall Hn) Ht Hs).
-  - simpl in Hc, Hn, Ht. apply K; [exact I|].
-    exact (cva_roundtrip u vs toks 0 Hc (nofloat_item u Hc Hn) Ht Hs).
-Qed.
-
-Lemma value_eqb_lit v l : value_eqb v (lit_value l) = true -> v = lit_value l.
-Proof.
-  destruct l, v; simpl; intros H; try discriminate.
-  - apply String.eqb_eq in H. now subst.
-  - apply Z.eqb_eq in H. now subst.
-Qed.
-
-Lemma nodup_map_inj {A} (f : A -> string) l a b :
-  NoDup (map f l) -> In a l -> In b l -> f a = f b -> a = b.
-Proof.
-  induction l as [|x r IH]; simpl; intros N Ha Hb E; [contradiction|].
-  inversion N as [|? ? Hx Hr]; subst.
-  destruct Ha as [->|Ha], Hb as [->|Hb]; auto.
-  - exfalso. apply Hx. rewrite E. now apply in_map.
-  - exfalso. apply Hx. rewrite <- E. now apply in_map.
-Qed.
-
-Lemma lookup_lit_distinct cs l : lit_names_distinct cs = true -> In l cs -> lookup_lit cs (lit_name l) = Some (lit_value l).
-Proof.
-  intros N Hl. unfold lit_names_distinct in N. apply str_nodupb_NoDup in N. unfold lookup_lit.
-  destruct (find (fun l0 => String.eqb (lit_name l0) (lit_name l)) (rev cs)) as [l'|] eqn:F.
-  - apply find_some in F as [Hin He]. apply in_rev in Hin. apply String.eqb_eq in He.
-    now rewrite (nodup_map_inj lit_name cs l' l N Hin Hl He).
-  - exfalso. assert (X := find_none _ _ F l). rewrite <- in_rev in X. specialize (X Hl). rewrite String.eqb_refl in X. discriminate.
-Qed.
-
-(* C02, one field: writing v in its canonical token form after the option gives back exactly v *)
-Theorem leaf_roundtrip t v toks :
-  cli_type t = true -> nofloat t = true -> has_type v t = true -> canon t v = Some toks -> lp t toks = Ok v.
-Proof.
-  unfold lp, leaf_parse. intros Hc Hn Ht Hs.
-  assert (S1 : forall u ch w s, is_item u = true -> u <> TFloat -> has_type w u = true -> scalar_token w = Some s ->
-             forallb (check_choice ch) [w] = true -> forall n, (n = NOne \/ n = NOpt) -> tkv n (parsing_fn u) ch [s] = Ok (ROne w)).
-  { intros u ch w s Hu Hf Hw Hsw Hch n Hnn. unfold take_values.
-    assert (A : negb (match n with NOne => Nat.eqb (List.length [s]) 1 | NOpt => Nat.leb (List.length [s]) 1 | NStar => true | NNum m => Nat.eqb (List.length [s]) m end) = false)
-      by (destruct Hnn as [-> | ->]; reflexivity).
-    rewrite A. simpl convert_all. rewrite (scalar_roundtrip u w s 0 Hu Hf Hw Hsw). rewrite Hch.
-    destruct Hnn as [-> | ->]; reflexivity. }
-  destruct t as [| | | | |ms|cs|u|ts|u|u].
-  - (* int *) destruct v; try discriminate. simpl in Hs. injection Hs as <-. cbn [arg_options].
-    rewrite (S1 TInt None (VInt z) _ eq_refl ltac:(discriminate) eq_refl eq_refl eq_refl NOne (or_introl eq_refl)). reflexivity.
-  - discriminate.
-  - destruct v; try discriminate. simpl in Hs. injection Hs as <-. cbn [arg_options].
-    rewrite (S1 TStr None (VStr s) _ eq_refl ltac:(discriminate) eq_refl eq_refl eq_refl NOne (or_introl eq_refl)). reflexivity.
-  - destruct v; try discriminate. simpl in Hs. injection Hs as <-. cbn [arg_options].
-    destruct b; [rewrite (proj1 str2bool_True) | rewrite (proj2 str2bool_True)]; reflexivity.
-  - destruct v; try discriminate. simpl in Hs. injection Hs as <-. cbn [arg_options].
-    rewrite (S1 TPath None (VPath s) _ eq_refl ltac:(discriminate) eq_refl eq_refl eq_refl NOne (or_introl eq_refl)). reflexivity.
-  - (* enum field *) destruct v; try discriminate. simpl in Hs. injection Hs as <-. simpl in Ht. cbn [arg_options].
-    unfold take_values. simpl. rewrite Ht. reflexivity.
-  - (* literal *) simpl in Hc. apply andb_true_iff in Hc as [_ Hd].
-    assert (Hex : exists l, In l cs /\ v = lit_value l).
-    { destruct v; simpl in Ht; try (apply existsb_exists in Ht as [l [Hl He]]; exists l; split; [exact Hl | now apply value_eqb_lit]);
-      try (exfalso; apply existsb_exists in Ht as [l [Hl He]]; destruct l; discriminate). }
-    destruct Hex as [l [Hl ->]].
-    assert (Tk : toks = [lit_name l]) by (destruct l; simpl in Hs; now injection Hs as <-).
-    subst toks. cbn [arg_options]. unfold take_values. simpl.
-    assert (M : str_in (lit_name l) (map lit_name cs) = true) by (apply str_in_In, in_map; exact Hl).
-    rewrite M. simpl. rewrite (lookup_lit_distinct cs l Hd Hl). reflexivity.
-  - (* list *) destruct v; try discriminate. simpl in Hs. simpl in Hc. cbn [arg_options].
-    assert (X := container_roundtrip (TList u) vs toks Hc Hn Ht Hs). simpl container_nargs in X. rewrite X. reflexivity.
-  - destruct v; try discriminate. simpl in Hs. simpl in Hc. cbn [arg_options].
-    rewrite (container_roundtrip (TTupFix ts) vs toks Hc Hn Ht Hs). reflexivity.
-  - destruct v; try discriminate. simpl in Hs. simpl in Hc. cbn [arg_options].
-    rewrite (container_roundtrip (TTupVar u) vs toks Hc Hn Ht Hs). reflexivity.
-  - (* Optional *) simpl in Hc, Hn. apply orb_true_iff in Hc as [Hi|Hco].
-    + assert (A : arg_options (TOpt u) = AStore NOpt (parsing_fn u) None) by (destruct u; try discriminate; reflexivity).
-      rewrite A. destruct v as [z|ng ip fr|s0|b| |m|s0|vs|vs].
-      * destruct u; try discriminate. simpl in Hs. injection Hs as <-.
-        rewrite (S1 TInt None (VInt z) (show_int z) eq_refl ltac:(discriminate) eq_refl eq_refl eq_refl NOpt (or_intror eq_refl)). reflexivity.
-      * destruct u; try discriminate.
-      * destruct u; try discriminate. simpl in Hs. injection Hs as <-.
-        rewrite (S1 TStr None (VStr s0) s0 eq_refl ltac:(discriminate) eq_refl eq_refl eq_refl NOpt (or_intror eq_refl)). reflexivity.
-      * destruct u; try discriminate. simpl in Hs. injection Hs as <-.
-        rewrite (S1 TBool None (VBool b) (if b then "True" else "False") eq_refl ltac:(discriminate) eq_refl eq_refl eq_refl NOpt (or_intror eq_refl)). reflexivity.
-      * (* None *) assert (toks = []) by (destruct u; try discriminate; simpl in Hs; now injection Hs as <-). subst toks.
-        unfold take_values. simpl. destruct u; reflexivity.
-      * (* enum member *) destruct u; try discriminate. simpl in Hs. injection Hs as <-. simpl in Ht.
-        unfold take_values. simpl. rewrite Ht. reflexivity.
-      * destruct u; try discriminate. simpl in Hs. injection Hs as <-.
-        rewrite (S1 TPath None (VPath s0) s0 eq_refl ltac:(discriminate) eq_refl eq_refl eq_refl NOpt (or_intror eq_refl)). reflexivity.
-      * destruct u; discriminate.
-      * destruct u; discriminate.
-    + destruct u as [| | | | | | |u'|ts|u'|]; try discriminate; destruct v; try discriminate; simpl in Hs; cbn [arg_options].
-      * assert (X := container_roundtrip (TList u') vs toks Hco Hn Ht Hs). simpl container_nargs in X. rewrite X. reflexivity.
-      * rewrite (container_roundtrip (TTupFix ts) vs toks Hco Hn Ht Hs). reflexivity.
-      * rewrite (container_roundtrip (TTupVar u') vs toks Hco Hn Ht Hs). reflexivity.
-Qed.
